@@ -725,16 +725,77 @@ func (w *World) condAtomsOfFunc(fi *FuncInfo) []string {
 
 func (w *World) dumpCondAtoms() []byte {
 	out := map[string][]string{}
+	sets := map[string][][]string{}
 	for k, fi := range w.Funcs {
 		if a := w.condAtomsOfFunc(fi); len(a) > 0 {
 			out[k] = a
 		}
+		if fi.Decl.Body == nil {
+			continue
+		}
+		seen := map[string]bool{}
+		for _, e := range branchConds(fi) {
+			as := condAtomsOfExpr(w.exprAtomsDeep(fi, e))
+			if len(as) == 0 || seen[strings.Join(as, "\x00")] {
+				continue
+			}
+			seen[strings.Join(as, "\x00")] = true
+			sets[k] = append(sets[k], as)
+		}
+		sort.Slice(sets[k], func(i, j int) bool { return strings.Join(sets[k][i], ",") < strings.Join(sets[k][j], ",") })
 	}
 	b, _ := json.MarshalIndent(map[string]any{
-		"_comment":   "per function of the reviewed tree: the fields and calls its branch conditions read (checker/inline.go)",
+		"_comment":   "per function of the reviewed tree: the fields and calls its branch conditions read (cond_atoms: all of them; cond_sets: per branch condition) (checker/inline.go)",
 		"cond_atoms": out,
+		"cond_sets":  sets,
 	}, "", " ")
 	return append(b, '\n')
+}
+
+// restatesReviewedBranches: what the condition decides on is exactly what one reviewed branch
+// condition of the function decides on, or the union of several (conditions merged, split,
+// inverted, turned from a guard around the work into a skip before it). A condition on a
+// different combination - also a weaker one that drops a conjunct - is a new decision.
+func (w *World) restatesReviewedBranches(verifDir, host string, a *Atoms) bool {
+	w.loadCondAtoms(verifDir)
+	want := map[string]bool{}
+	for _, x := range condAtomsOfExpr(a) {
+		want[x] = true
+	}
+	if len(want) == 0 {
+		return false
+	}
+	for _, h := range hostParts(host) {
+		hosts := []string{h}
+		if hfi := w.Funcs[h]; hfi != nil {
+			for _, g := range w.vanishedFns() {
+				if w.absorbedInto(g, hfi) {
+					hosts = append(hosts, g)
+				}
+			}
+		}
+		cover := map[string]bool{}
+		for _, hh := range hosts {
+			for _, set := range w.condSets[hh] {
+				sub := true
+				for _, x := range set {
+					if !want[x] {
+						sub = false
+						break
+					}
+				}
+				if sub {
+					for _, x := range set {
+						cover[x] = true
+					}
+				}
+			}
+		}
+		if len(cover) != len(want) {
+			return false
+		}
+	}
+	return true
 }
 
 func (w *World) loadCondAtoms(verifDir string) {
@@ -747,11 +808,13 @@ func (w *World) loadCondAtoms(verifDir string) {
 		return
 	}
 	var doc struct {
-		C map[string][]string `json:"cond_atoms"`
+		C map[string][]string   `json:"cond_atoms"`
+		S map[string][][]string `json:"cond_sets"`
 	}
 	if json.Unmarshal(b, &doc) != nil {
 		return
 	}
+	w.condSets = doc.S
 	for k, as := range doc.C {
 		m := map[string]bool{}
 		for _, a := range as {
